@@ -155,16 +155,16 @@ type RunResp struct {
 	LoadErr string `json:"load_err,omitempty"`
 	ExecErr string `json:"exec_err,omitempty"`
 	// FirstExecErr / FirstExecuted: what the first of two Execute calls on one executor did.
-	FirstExecErr  string                    `json:"first_exec_err,omitempty"`
-	FirstExecuted []string                  `json:"first_executed,omitempty"`
-	Panic         string                    `json:"panic,omitempty"`
+	FirstExecErr  string   `json:"first_exec_err,omitempty"`
+	FirstExecuted []string `json:"first_executed,omitempty"`
+	Panic         string   `json:"panic,omitempty"`
 	// Late: what gengo still did to the module (or which callbacks it still made) after Execute had returned
-	Late          []string                  `json:"late,omitempty"`
-	Events        []Event                   `json:"events,omitempty"`
-	Fired         []string                  `json:"fired,omitempty"` // faults that fired, as "index:kind"
-	Sites         map[string]simrt.SiteStat `json:"sites,omitempty"`
-	Sum           map[string]string         `json:"sum,omitempty"`
-	SumErr        string                    `json:"sum_err,omitempty"`
-	Universe      []PkgReport               `json:"universe,omitempty"`
-	RunIndex      int                       `json:"run_index"` // how many runs this process served before
+	Late     []string                  `json:"late,omitempty"`
+	Events   []Event                   `json:"events,omitempty"`
+	Fired    []string                  `json:"fired,omitempty"` // faults that fired, as "index:kind"
+	Sites    map[string]simrt.SiteStat `json:"sites,omitempty"`
+	Sum      map[string]string         `json:"sum,omitempty"`
+	SumErr   string                    `json:"sum_err,omitempty"`
+	Universe []PkgReport               `json:"universe,omitempty"`
+	RunIndex int                       `json:"run_index"` // how many runs this process served before
 }
